@@ -194,6 +194,24 @@ Theorem C10_exceptions_cross_processes :
   plain_exc_init sk_fse_init = true /\ plain_exc_init sk_rse_init = true.
 Proof. vm_compute. split; reflexivity. Qed.
 
+(* execute(): whatever the SEARCH of a file raises (also an OSError /
+   BadGzipFile from a damaged gzip stream, which the gzip PROBE's own
+   `except OSError` must not see) reaches the outer handler table, i.e. is
+   mapped by C10_execute_mapping; the same for the final flush and sync *)
+Theorem C10_search_failures_reach_the_table :
+  forallb (fun g =>
+    forallb (fun x => reaches_outer_table g x sk_execute)
+            ["OSError"; "EOFError"; "UnicodeDecodeError"; "RuntimeError"])
+    ["run_search"; "flush"; "sync"] = true.
+Proof. vm_compute. reflexivity. Qed.
+
+(* every FileSearchException raised in task.py / search.py is built from
+   text only: the object a worker pickles to report its failure never holds
+   the original exception (which need not be picklable) *)
+Theorem C10_only_text_crosses_processes :
+  only_text_raised fse_raise_sites = true.
+Proof. vm_compute. reflexivity. Qed.
+
 (* ------------------------------------------------------------- theorems *)
 (* a fault that fired is never followed by a normal return *)
 Theorem C10_failure_never_returns : forall c st co sched,
@@ -553,6 +571,8 @@ Print Assumptions C10_kill_workers_lists_once.
 Print Assumptions C10_model_kill_step_total.
 Print Assumptions C10_plain_constructor_and_accessor.
 Print Assumptions C10_exceptions_cross_processes.
+Print Assumptions C10_search_failures_reach_the_table.
+Print Assumptions C10_only_text_crosses_processes.
 Print Assumptions C10_facts_ok.
 Print Assumptions C10_execute_mapping.
 Print Assumptions C10_main_mapping.
